@@ -2,8 +2,8 @@
 # usage: try_mutant.sh <PROP> <k> [check args...]   confirm a sub-agent change and run the check against it
 set -u
 pid=$1; k=$2; shift 2
-wt=/tmp/mut_$pid; m=$wt/mutants/$k
-out=/verif/seeded/$pid-$k
+wt=${WT_PREFIX:-/tmp/mut_}$pid; m=$wt/mutants/$k
+out=/verif/seeded/$pid-${OUT_TAG:-}$k
 [ -f "$m/patch.diff" ] || { echo "no patch at $m"; exit 2; }
 cd $wt && git checkout -q -- . 
 demo_clean=$(cd $wt && PYTHONPATH=$wt timeout 120 /venv/bin/python $m/demo.py >/dev/null 2>&1; echo $?)
@@ -24,7 +24,7 @@ tail -1 /tmp/chk_$pid-$k.out | cut -c1-200
 echo "check exit=$code"
 mkdir -p $out && cp $m/patch.diff $m/demo.py $out/ && cp $m/notes.md $out/notes.md 2>/dev/null
 cat > $out/meta.json <<META
-{"property": "$pid", "repo_head": "$(git -C /repo rev-parse --short HEAD)", "source": "sub-agent mut-$pid change $k", "demo_exit_pristine": $demo_clean, "demo_exit_with_change": $demo_mut,
+{"property": "$pid", "repo_head": "$(git -C /repo rev-parse --short HEAD)", "source": "sub-agent ${OUT_TAG:-r1} $pid change $k", "demo_exit_pristine": $demo_clean, "demo_exit_with_change": $demo_mut,
  "baseline_with_change": "$base", "check_cmd": "./check $pid --no-evidence $*", "check_exit_with_change": $code,
  "violations_reported": $(grep -c "^VIOLATION" /tmp/chk_$pid-$k.out)}
 META
